@@ -112,10 +112,15 @@ def encSegs (lvl : Nat) (l : List JSeg) : List Nat :=
   | [] => [91, 93]
   | _ => [91] ++ encSegElems (lvl + 1) true l ++ [10] ++ indent lvl ++ [93]
 
+/-- `Option<CheckpointInfo>`: `null` or the object -/
+def encChkOpt (lvl : Nat) : Option JChk → List Nat
+  | none => /- null -/ [110, 117, 108, 108]
+  | some c => encChk lvl c
+
 def encode (m : JMan) : List Nat :=
   [123] ++ member 1 true /- version -/ [118, 101, 114, 115, 105, 111, 110] (encNat m.version) ++ member 1 false /- replica_id -/ [114, 101, 112, 108, 105, 99, 97, 95, 105, 100] (encNat m.rid) ++
   member 1 false /- segments -/ [115, 101, 103, 109, 101, 110, 116, 115] (encSegs 1 m.segments) ++
-  member 1 false /- checkpoint -/ [99, 104, 101, 99, 107, 112, 111, 105, 110, 116] (match m.checkpoint with | none => /- null -/ [110, 117, 108, 108] | some c => encChk 1 c) ++
+  member 1 false /- checkpoint -/ [99, 104, 101, 99, 107, 112, 111, 105, 110, 116] (encChkOpt 1 m.checkpoint) ++
   member 1 false /- next_segment_id -/ [110, 101, 120, 116, 95, 115, 101, 103, 109, 101, 110, 116, 95, 105, 100] (encNat m.next) ++ closeObj 0
 
 /-! ## the deserialiser (`from_slice`) -/
